@@ -517,3 +517,69 @@ def hello_sends_the_requests_once(b):
 import contracts.c10_taskloop as _TL
 unit(P, target=_TL.OF01 + "OpenFlow_01_Task.run", name="the_loop_closes_a_failing_connection_exactly_once")(_TL.a_failing_connection_is_closed_alone_and_the_loop_goes_on)
 unit(P, target=_TL.OF01 + "OpenFlow_01_Task.run (exceptional sockets)", name="the_loop_closes_a_socket_reported_in_error")(_TL.sockets_reported_in_error_are_closed_and_dropped)
+
+
+# ---------------------------------------------------------------- messages that share a chunk with the end of the handshake
+# (added 2026-09-25 after seeded change C09_8 hoisted `self.handlers` out of Connection.read's loop: the message that completes
+# the handshake replaces the connection's handler table; whatever follows it IN THE SAME recv() chunk must already go to the new
+# table - with the hoisted table, port-status and packet-in messages right behind the barrier reply were swallowed by the
+# handshake's handlers and never raised as events)
+import contracts.c10_framing as _F
+from pox.openflow.of_01 import Connection as _Connection
+
+
+class ReadTrace(object):
+  pass
+
+
+def _h_first(con, msg):
+  con.trace.log.append(("first table", msg.header_type, msg.xid))
+  con.handlers = con.next_table
+
+
+def _h_second(con, msg):
+  con.trace.log.append(("second table", msg.header_type, msg.xid))
+
+
+class ChunkSock(object):
+  def recv(self, n):
+    return self.chunk
+
+
+@unit(P, target="pox.openflow.of_01:Connection.read (handler table replaced by a handler)")
+def a_message_behind_the_one_that_switches_the_handler_table_goes_to_the_new_table(b):
+  import pox.openflow.libopenflow_01 as of
+  tr = b.raw_new(ReadTrace, log=b.list([]))
+  x1, x2 = b.int("xid1", 0, 2 ** 32 - 1), b.int("xid2", 0, 2 ** 32 - 1)
+  body = b.bytes("echo_body", None, 0, 40)
+  def be4(x):
+    return bytes([x >> 24 & 255, x >> 16 & 255, x >> 8 & 255, x & 255]) if b.mode == "conc" else None
+  n = len(body) if b.mode == "conc" else body.length()
+  if b.mode == "sym":
+    from pyvc import sbytes as sb
+    import struct
+    x1b, x2b = b.bytes("xid1_bytes", 4), b.bytes("xid2_bytes", 4)
+    # the two xids as the decoders will read them
+    b.assume(x1 == sb.byte_at(x1b, 0, b.st) * 16777216 + sb.byte_at(x1b, 1, b.st) * 65536 + sb.byte_at(x1b, 2, b.st) * 256 + sb.byte_at(x1b, 3, b.st))
+    b.assume(x2 == sb.byte_at(x2b, 0, b.st) * 16777216 + sb.byte_at(x2b, 1, b.st) * 65536 + sb.byte_at(x2b, 2, b.st) * 256 + sb.byte_at(x2b, 3, b.st))
+    lenb = b.bytes("echo_len_bytes", 2)
+    b.assume(sb.byte_at(lenb, 0, b.st) * 256 + sb.byte_at(lenb, 1, b.st) == 8 + n)
+    from pyvc.models import as_sbytes
+    chunk = as_sbytes(b"\x01\x13\x00\x08")
+    for part in (x1b, as_sbytes(b"\x01\x02"), lenb, x2b, body):
+      chunk = sb.concat(chunk, part)
+  else:
+    chunk = b"\x01\x13\x00\x08" + be4(x1) + b"\x01\x02" + bytes([(8 + n) >> 8, (8 + n) & 255]) + be4(x2) + body
+  sock = b.raw_new(ChunkSock, chunk=chunk)
+  first = [_h_first] * 22
+  second = [_h_second] * 22
+  con = b.raw_new(_Connection, buf=b"", sock=sock, unpackers=_F.unpackers, handlers=first, next_table=second, trace=tr, ID=1, dpid=None)
+  def run(con):
+    r = con.read()
+    return (r, [e for e in tr.log], con.buf)
+  return Case(run, [con], raises={}, ensures={
+    "both_messages_are_handled_in_order_the_second_by_the_table_installed_by_the_first":
+      lambda res: res[0] is True and res[1] == [("first table", of.OFPT_BARRIER_REPLY, x1), ("second table", of.OFPT_ECHO_REQUEST, x2)],
+    "nothing_stays_buffered": lambda res: len(res[2]) == 0,
+  })
+a_message_behind_the_one_that_switches_the_handler_table_goes_to_the_new_table.bound = "one chunk: a barrier reply and an echo request (body 0..40 bytes)"
